@@ -1,5 +1,9 @@
 import CssVerif.Model.Codec
 import CssVerif.Model.CodecInc
+import CssVerif.Model.CodecInner
+import CssVerif.Lemmas.CodecEncInner
+import CssVerif.Model.CodecStream
+import CssVerif.Model.CodecErr
 open CssVerif.Proto CssVerif.Codec
 
 def showEnc : Enc → String
@@ -47,6 +51,133 @@ def incenc (given : Option Name) (chunks : List (List Nat)) : String :=
   " ".intercalate r.2 ++ " | " ++ encCps fin.2 ++ " | " ++ showESt r.1 ++ " | " ++
     encCps (encodeOneShot idInnerEnc given chunks.flatten)
 
+/-! ### inner codecs (Model/CodecInner.lean) -/
+
+def parseCName : String → Option CName
+  | "u8" => some (.plain .u8) | "u8sig" => some .u8sig | "u16" => some .u16 | "u32" => some .u32
+  | "u16le" => some (.plain .u16le) | "u16be" => some (.plain .u16be)
+  | "u32le" => some (.plain .u32le) | "u32be" => some (.plain .u32be)
+  | "l1" => some (.plain .l1) | "ascii" => some (.plain .ascii)
+  | _ => none
+
+def showKind : Option Kind → String
+  | none => "none" | some .u8 => "u8" | some .u16le => "u16le" | some .u16be => "u16be"
+  | some .u32le => "u32le" | some .u32be => "u32be" | some .l1 => "l1" | some .ascii => "ascii"
+
+def isBytes (l : List Nat) : Bool := l.all (· < 256)
+
+/-- `pdec c final bytes`: one `_buffer_decode(bytes, "strict", final)` of a fresh decoder: text, consumed -/
+def pdec (c : CName) (final : Bool) (d : List Nat) : String :=
+  let r := sniff c d final
+  if r.res.err then "RAISE" else encCps r.res.text ++ " " ++ toString (d.length - r.res.pend.length) ++ " " ++ showKind r.mode
+
+/-- `idec c chunk…`: outputs of `decode(chunk, False)` …, `decode(b"", True)`; `RAISE` ends the list -/
+def idec (c : CName) (chunks : List (List Nat)) : String :=
+  let rec go (s : ISt) (cs : List (List Nat)) (acc : List String) : List String :=
+    match cs with
+    | [] => match istep c s [] true with
+      | none => ("RAISE" :: acc).reverse
+      | some (_, t) => (encCps t :: acc).reverse
+    | x :: xs => match istep c s x false with
+      | none => ("RAISE" :: acc).reverse
+      | some (s', t) => go s' xs (encCps t :: acc)
+  " ".intercalate (go c.init chunks []) ++ " | " ++
+    (match incDecode c chunks with | none => "RAISE" | some t => encCps t) ++ " | " ++
+    (match statelessDecode c chunks.flatten with | none => "RAISE" | some t => encCps t)
+
+def ienc (c : CName) (chunks : List (List Nat)) : String :=
+  let rec go (s : Bool) (cs : List (List Nat)) (acc : List String) : List String :=
+    match cs with
+    | [] => match estepInner c s [] with
+      | none => ("RAISE" :: acc).reverse
+      | some (_, t) => (encCps t :: acc).reverse
+    | x :: xs => match estepInner c s x with
+      | none => ("RAISE" :: acc).reverse
+      | some (s', t) => go s' xs (encCps t :: acc)
+  " ".intercalate (go true chunks []) ++ " | " ++
+    (match incEncode c chunks with | none => "RAISE" | some t => encCps t) ++ " | " ++
+    (match statelessEncode c chunks.flatten with | none => "RAISE" | some t => encCps t)
+
+/-- `cdec given force chunk…`: the CSS incremental decoder over CPython's inner decoders (`cpyInner`), with
+the exception: per-chunk outputs (`RAISE` ends the list) then the final output | all | one-shot -/
+def cdec (given : Option Name) (force : Bool) (chunks : List (List Nat)) : String :=
+  let rec go (s : DSt) (cs : List (List Nat)) (acc : List String) : List String :=
+    match cs with
+    | [] => match stepE cpyInner s [] true with
+      | none => ("RAISE" :: acc).reverse
+      | some r => (encCps r.2 :: acc).reverse
+    | c :: cs => match stepE cpyInner s c false with
+      | none => ("RAISE" :: acc).reverse
+      | some r => go r.1 cs (encCps r.2 :: acc)
+  " ".intercalate (go (.waiting given force []) chunks []) ++ " | " ++
+    (match runAllE cpyInner given force chunks with | none => "RAISE" | some t => encCps t) ++ " | " ++
+    (match oneShotE cpyInner given force chunks.flatten with | none => "RAISE" | some t => encCps t)
+
+def cenc (given : Option Name) (chunks : List (List Nat)) : String :=
+  let rec go (s : ESt) (cs : List (List Nat)) (acc : List String) : List String :=
+    match cs with
+    | [] => match estepE cpyInnerEnc s [] true with
+      | none => ("RAISE" :: acc).reverse
+      | some r => (encCps r.2 :: acc).reverse
+    | c :: cs => match estepE cpyInnerEnc s c false with
+      | none => ("RAISE" :: acc).reverse
+      | some r => go r.1 cs (encCps r.2 :: acc)
+  " ".intercalate (go (.waiting given []) chunks []) ++ " | " ++
+    (match erunAllE cpyInnerEnc given chunks with | none => "RAISE" | some t => encCps t) ++ " | " ++
+    (match encodeOneShotE cpyInnerEnc given chunks.flatten with | none => "RAISE" | some t => encCps t)
+
+/-- `sread given force chunk…`: `newchars` of every turn of the `read()` loop of the CSS stream reader over
+CPython's inner decoders | 1 if the reader is still waiting at the end | one-shot -/
+def sread (given : Option Name) (force : Bool) (chunks : List (List Nat)) : String :=
+  let rec go (s : RSt) (cs : List (List Nat)) (acc : List String) : Option RSt × List String :=
+    match cs with
+    | [] => (some s, acc.reverse)
+    | c :: cs => match rstepE cpyInner force s c with
+      | none => (none, ("RAISE" :: acc).reverse)
+      | some r => go r.1 cs (encCps r.2 :: acc)
+  let r := go (.waiting given []) chunks []
+  " ".intercalate r.2 ++ " | " ++
+    (match r.1 with | none => "X" | some (.waiting _ _) => "W" | some (.reading _ _) => "R") ++ " | " ++
+    encCps (oneShot cpyInner given force chunks.flatten)
+
+def swrite (given : Option Name) (chunks : List (List Nat)) : String :=
+  let rec go (s : ESt) (cs : List (List Nat)) (acc : List String) : Option ESt × List String :=
+    match cs with
+    | [] => (some s, acc.reverse)
+    | c :: cs => match estepE cpyInnerEnc s c false with
+      | none => (none, ("RAISE" :: acc).reverse)
+      | some r => go r.1 cs (encCps r.2 :: acc)
+  let r := go (.waiting given []) chunks []
+  " ".intercalate r.2 ++ " | " ++
+    (match r.1 with | none => "X" | some (.waiting _ _) => "W" | some (.encoding _ _) => "E") ++ " | " ++
+    encCps (encodeOneShot cpyInnerEnc given chunks.flatten)
+
+/-- `rdec given force n chunk…`: the first `n` chunks (then `decode(b"", True)`), `reset()`, the other chunks
+(then the final call): total of the first run | total of the second run -/
+def rdec (given : Option Name) (force : Bool) (n : Nat) (chunks : List (List Nat)) : String :=
+  let run (s : DSt) (cs : List (List Nat)) : Option (DSt × List Nat) :=
+    match runChunksE cpyInner s cs with
+    | none => none
+    | some r => match stepE cpyInner r.1 [] true with
+      | none => none
+      | some r' => some (r'.1, r.2 ++ r'.2)
+  match run (.waiting given force []) (chunks.take n) with
+  | none => "RAISE | -"
+  | some r1 =>
+    encCps r1.2 ++ " | " ++ (match run (r1.1.reset force) (chunks.drop n) with | none => "RAISE" | some r2 => encCps r2.2)
+
+def renc (given : Option Name) (n : Nat) (chunks : List (List Nat)) : String :=
+  let run (s : ESt) (cs : List (List Nat)) : Option (ESt × List Nat) :=
+    match erunChunksE cpyInnerEnc s cs with
+    | none => none
+    | some r => match estepE cpyInnerEnc r.1 [] true with
+      | none => none
+      | some r' => some (r'.1, r.2 ++ r'.2)
+  match run (.waiting given []) (chunks.take n) with
+  | none => "RAISE | -"
+  | some r1 =>
+    encCps r1.2 ++ " | " ++ (match run r1.1.reset (chunks.drop n) with | none => "RAISE" | some r2 => encCps r2.2)
+
 def handle (line : String) : String :=
   match words line with
   | ["detect", f, b] => match decCps b with
@@ -69,6 +200,45 @@ def handle (line : String) : String :=
       let given := if g == "none" then some none else (decCps g).map some
       match given, chunks.mapM decCps with
       | some given, some cs => incenc given cs
+      | _, _ => "bad-op"
+  | "cdec" :: g :: f :: chunks =>
+      let given := if g == "none" then some none else (decCps g).map some
+      match given, chunks.mapM decCps with
+      | some given, some cs => if cs.all isBytes then cdec given (f == "1") cs else "bad-op"
+      | _, _ => "bad-op"
+  | "rdec" :: g :: f :: n :: chunks =>
+      let given := if g == "none" then some none else (decCps g).map some
+      match given, n.toNat?, chunks.mapM decCps with
+      | some given, some n, some cs => if cs.all isBytes then rdec given (f == "1") n cs else "bad-op"
+      | _, _, _ => "bad-op"
+  | "renc" :: g :: n :: chunks =>
+      let given := if g == "none" then some none else (decCps g).map some
+      match given, n.toNat?, chunks.mapM decCps with
+      | some given, some n, some cs => renc given n cs
+      | _, _, _ => "bad-op"
+  | "sread" :: g :: f :: chunks =>
+      let given := if g == "none" then some none else (decCps g).map some
+      match given, chunks.mapM decCps with
+      | some given, some cs => if cs.all isBytes then sread given (f == "1") cs else "bad-op"
+      | _, _ => "bad-op"
+  | "swrite" :: g :: chunks =>
+      let given := if g == "none" then some none else (decCps g).map some
+      match given, chunks.mapM decCps with
+      | some given, some cs => swrite given cs
+      | _, _ => "bad-op"
+  | "cenc" :: g :: chunks =>
+      let given := if g == "none" then some none else (decCps g).map some
+      match given, chunks.mapM decCps with
+      | some given, some cs => cenc given cs
+      | _, _ => "bad-op"
+  | ["pdec", c, f, b] => match parseCName c, decCps b with
+      | some c, some d => if isBytes d then pdec c (f == "1") d else "bad-op"
+      | _, _ => "bad-op"
+  | "idec" :: c :: chunks => match parseCName c, chunks.mapM decCps with
+      | some c, some cs => if cs.all isBytes then idec c cs else "bad-op"
+      | _, _ => "bad-op"
+  | "ienc" :: c :: chunks => match parseCName c, chunks.mapM decCps with
+      | some c, some cs => ienc c cs
       | _, _ => "bad-op"
   | _ => "bad-op"
 
